@@ -342,10 +342,215 @@ def handlePsm (args impl : List String) : Option Reply := do
     -- the model's own value lies inside the interval by construction, so agreement = the interval test
     return { model, agree := verdicts.isEmpty, spec := verdict }
 
+/-! ### `kdeseq`, `kdepool`, `psmpepseq`: no hidden state
+
+`kdeseq [M model…] [S step…] | [Q u64 pep…]` — builds and queries of SEVERAL estimators back to back on one
+thread. The model is a pure function (`posteriorError_history_free`), so every answer is compared with
+`posteriorError (estimator i) score` (same bound as op `kde`) whatever came before. Spec on the
+implementation's answers: (1) the same (sample, settings, score) always gets the bit-identical answer, however
+often the estimator is rebuilt or whatever was asked in between; (2) every answer equals THAT estimator's
+definition — the textbook grid recomputed here, interpolated with the clamped weight — within the rounding
+allowance of op `kde`. A failure of (1), or a failure of (2) by an answer that is another estimator's value
+for that score or the previous answer, is `bad:depends_on_previous_estimator@k`; any other failure of (2) is
+`bad:answer_ne_definition@k`.
+
+`kdepool <kde request> | 5 ([m u64…])` — the same estimator built and swept in rayon pools of 1, 2, 3, 4, 8
+threads: the five replies must be bit-identical (`bad:depends_on_pool_size@p`), and the first is checked like `kde`.
+
+`psmpepseq K (psmpep request)… | K (psmpep reply)…` — `score_psms` called K times in one single-threaded
+pool: every reply is checked like `psmpep`; identical PSM tables must give bit-identical replies
+(`bad:depends_on_previous_call@k`).
+-/
+
+structure SeqModel where
+  req : Req
+  key : Nat                 -- index of the first model with the same sample and settings
+  est : Option (Estimator Float)
+  minS : Float
+  maxS : Float
+  step : Float
+  S : Array Float           -- the textbook grid
+
+def parseModel : P (List String → Req) := do
+  let pairs ← list (do let s ← f64; let d ← bool; pure (s, d))
+  let nbins ← nat
+  let adj ← f64
+  let mono ← bool
+  pure fun _ => { scores := pairs.map (·.1), decoys := pairs.map (·.2), nbins, adj, mono, sweep := #[] }
+
+def sameReq (a b : Req) : Bool :=
+  a.scores.map (·.toBits) == b.scores.map (·.toBits) && a.decoys == b.decoys && a.nbins == b.nbins &&
+  a.adj.toBits == b.adj.toBits && a.mono == b.mono
+
+/-- the definition's value at `s` (textbook grid `S`, clamped linear interpolation) and its rounding allowance -/
+def specValue (m : SeqModel) (s : Float) : Float × Float :=
+  let n := m.req.nbins
+  let j0 := Nat.min (n - 1) (floorNat ((s - m.minS) / m.step))
+  let j := if j0 + 1 < n then j0 else n - 2
+  let gj := ofNat j * m.step + m.minS
+  let t0 := (s - gj) / m.step
+  let t := if t0 < 0 then 0 else if t0 > 1 then 1 else t0
+  let lo := at0 m.S j
+  let hi := at0 m.S (j+1)
+  let sc := if s < m.minS then m.minS else if s > m.maxS then m.maxS else s
+  let M := [at0 m.S (j-1), lo, hi, at0 m.S (j+2)].foldl (fun a b => if a < absF b then absF b else a) 0
+  let D := absF (lo - at0 m.S (j-1)) + absF (hi - lo) + (if j + 2 < n then absF (at0 m.S (j+2) - hi) else 0)
+  let K : Float := ofNat (4 * m.req.scores.length + 32)
+  (lo + (hi - lo) * t,
+   (K * 2 * u + 16 * u) * M + D * (16 * u * (absF sc + absF m.minS + absF m.maxS) / m.step) + 1e-290)
+
+def handleKdeSeq (args impl : List String) : Option Reply := do
+  let (reqs, steps) ← run (do
+    let ms ← list parseModel
+    let st ← list (do
+      let kind ← nat
+      let i ← nat
+      if kind == 1 then do let s ← f64; pure (i, some s) else pure (i, none))
+    pure (ms.map (fun f => f []), st)) args
+  let reqsA := reqs.toArray
+  let models : Array SeqModel := reqsA.mapIdx fun i r =>
+    let key := ((List.range i).find? fun j => sameReq (reqsA.getD j r) r).getD i
+    match foldExt fmin r.scores, foldExt fmax r.scores with
+    | some minS, some maxS =>
+      let step := (maxS - minS) / ofNat (r.nbins - 1)
+      { req := r, key, est := build floatFns r.scores r.decoys r.nbins r.adj r.mono, minS, maxS, step,
+        S := specGrid r minS step }
+    | _, _ => { req := r, key, est := none, minS := 0, maxS := 0, step := 0, S := #[] }
+  let queries := steps.filterMap fun (i, s) => s.map fun x => (i, x)
+  let modelVals : List (Option Float) := queries.map fun (i, x) =>
+    (models[i]?).bind fun m => m.est.bind fun e => posteriorError e x
+  let model := outList (fun v => match v with | some x => outF64 x | none => "panic") modelVals
+  if impl == ["panic"] then return { model, agree := false, spec := "bad:panic" }
+  let iv ← (run (list f64) impl).map (·.toArray)
+  if iv.size != queries.length then return { model, agree := false, spec := "bad:length" }
+  let qs := queries.toArray
+  -- agreement with the (history-free) model, same bound as op `kde`
+  let agree := (List.range qs.size).all fun k =>
+    match qs[k]?, modelVals[k]? with
+    | some (i, x), some (some a) =>
+      (match models[i]? with
+       | some m =>
+         (match m.est with
+          | some e =>
+            let b := at0 iv k
+            if a.isNaN || b.isNaN then a.isNaN && b.isNaN else
+            let bins := e.bins.toArray
+            let lo := binLo e x
+            let L := absF (at0 bins lo)
+            let U := absF (at0 bins (binHi e lo))
+            let K : Float := ofNat (4 * m.req.scores.length + 32)
+            absF (a - b) ≤ K * 2 * u * (if L < U then U else L) + 1e-290
+          | none => false)
+       | none => false)
+    | _, _ => false
+  -- spec
+  let verdict : Option String := Id.run do
+    -- (1) purity: first answer seen for (model key, score bits)
+    let mut seen : List ((Nat × UInt64) × UInt64) := []
+    for k in [0:qs.size] do
+      match qs[k]? with
+      | none => pure ()
+      | some (i, x) =>
+        let key := ((models[i]?).map (·.key)).getD i
+        let v := at0 iv k
+        match seen.lookup (key, x.toBits) with
+        | some b => if b != v.toBits then return some (fmtIdx "bad:depends_on_previous_estimator" k)
+        | none => seen := ((key, x.toBits), v.toBits) :: seen
+    -- (2) every answer is its own estimator's definition
+    for k in [0:qs.size] do
+      match qs[k]? with
+      | none => pure ()
+      | some (i, x) =>
+        match models[i]? with
+        | none => return some (fmtIdx "bad:unknown_model" k)
+        | some m =>
+          if x.isNaN || x.isInf then pure () else
+          let v := at0 iv k
+          let (p, tol) := specValue m x
+          if v.isNaN then return some (fmtIdx "bad:nan" k)
+          if !(0 ≤ v && v ≤ 1) then return some (fmtIdx "bad:range" k)
+          if !(absF (v - p) ≤ tol) then
+            -- whose value is it?
+            let other := (List.range models.size).any fun j =>
+              match models[j]? with
+              | some mj => mj.key != m.key && (let (pj, tj) := specValue mj x; absF (v - pj) ≤ tj)
+              | none => false
+            let prev := k > 0 && (at0 iv (k-1)).toBits == v.toBits
+            return some (fmtIdx (if other || prev then "bad:depends_on_previous_estimator" else "bad:answer_ne_definition") k)
+    return none
+  -- outside the precondition (not generated): a degenerate model makes the definition undefined
+  let wellFormed := models.all fun m =>
+    m.req.nbins ≥ 2 && distinctCount (classOf true m.req.scores m.req.decoys) ≥ 2 &&
+    distinctCount (classOf false m.req.scores m.req.decoys) ≥ 2 &&
+    !(m.req.scores.any fun x => x.isNaN || x.isInf)
+  let spec := if !wellFormed then "na" else match verdict with | none => "ok" | some v => v
+  return { model, agree, spec }
+
+def handleKdePool (args impl : List String) : Option Reply := do
+  if impl == ["panic"] then return { model := "-", agree := false, spec := "bad:panic" }
+  let blocks ← run (list (list nat)) impl
+  match blocks with
+  | [] => return { model := "-", agree := false, spec := "bad:length" }
+  | b0 :: rest =>
+    let firstImpl := (toString b0.length) :: b0.map toString
+    let r ← handleKde args firstImpl
+    let diff := (List.range rest.length).find? fun p => rest[p]? != some b0
+    match diff with
+    | some p => return { r with agree := false, spec := fmtIdx "bad:depends_on_pool_size" (p + 1) }
+    | none => return r
+
+/-- split `K` concatenated psmpep requests / replies -/
+def splitPsmArgs : Nat → List String → Option (List (List String))
+  | 0, [] => some []
+  | 0, _ => none
+  | k + 1, toks => do
+    let n ← (toks[3]?).bind String.toNat?
+    let len := 4 + 22 * n
+    if toks.length < len then none else do
+      let rest ← splitPsmArgs k (toks.drop len)
+      pure (toks.take len :: rest)
+
+def splitPsmReplies : Nat → List String → Option (List (List String))
+  | 0, [] => some []
+  | 0, _ => none
+  | k + 1, toks => do
+    let n ← (toks[1]?).bind String.toNat?
+    let len := 2 + 3 * n
+    if toks.length < len then none else do
+      let rest ← splitPsmReplies k (toks.drop len)
+      pure (toks.take len :: rest)
+
+def handlePsmSeq (args impl : List String) : Option Reply := do
+  let k ← (args.head?).bind String.toNat?
+  let reqs ← splitPsmArgs k args.tail
+  if impl == ["panic"] then return { model := "-", agree := false, spec := "bad:panic" }
+  match splitPsmReplies k impl with
+  | none => return { model := "-", agree := false, spec := "bad:length" }
+  | some reps =>
+    let rs ← (List.zip reqs reps).mapM fun (a, i) => handlePsm a i
+    let model := " ".intercalate (rs.map (·.model))
+    -- identical tables ⇒ bit-identical replies
+    let pairs := List.zip reqs reps
+    let impure := (List.range pairs.length).find? fun j =>
+      (List.range j).any fun i =>
+        match pairs[i]?, pairs[j]? with
+        | some (ai, ri), some (aj, rj) => ai == aj && ri != rj
+        | _, _ => false
+    let firstBad := (List.range rs.length).findSome? fun j =>
+      (rs[j]?).bind fun r => if r.spec.startsWith "bad" then some (r.spec ++ "#call" ++ toString j) else none
+    let spec := match impure, firstBad with
+      | some j, _ => fmtIdx "bad:depends_on_previous_call" j
+      | none, some b => b
+      | none, none => if rs.all (fun r => r.spec == "na") then "na" else "ok"
+    return { model, agree := rs.all (·.agree) && impure.isNone, spec }
+
 def handle (op : String) (args impl : List String) : Option Reply :=
   match op with
   | "kde" => handleKde args impl
   | "psmpep" => handlePsm args impl
+  | "kdeseq" => handleKdeSeq args impl
+  | "kdepool" => handleKdePool args impl
+  | "psmpepseq" => handlePsmSeq args impl
   | _ => none
 
 end Sage.C14
